@@ -311,6 +311,24 @@ func provablyDistinct(a, b *Term) (bool, bool) {
 	return false, false
 }
 
+// tFresh(p): p points into an object allocated since the verified function was entered: by the function itself
+// (zz_new) or by one of its callees (zz_cfresh, asserted by callee postconditions on the root pointer).
+func tFresh(p *Term) *Term {
+	r := rootOf(p)
+	if r.Op == "zz_new" {
+		return tTrue
+	}
+	if isCtor(r) {
+		return tFalse
+	}
+	return tOr(mk("Bool", "zz_isnew", p), mk("Bool", "zz_cfresh", r))
+}
+
+// tNotFresh(p): p existed on entry
+func tNotFresh(p *Term) *Term {
+	return tAnd(tNot(mk("Bool", "zz_isnew", p)), tNot(mk("Bool", "zz_cfresh", rootOf(p))))
+}
+
 // rootOf returns the root object of a pointer path if syntactically known.
 func rootOf(p *Term) *Term {
 	for p.Op == "zz_fld" || p.Op == "zz_elem" {
@@ -386,6 +404,7 @@ const preamble = `(declare-datatypes ((Ptr 0)) (((zz_nilptr) (zz_new (zz_new_id 
 (declare-fun zz_dyn (Iface) Int)
 (define-fun-rec zz_isnew ((p Ptr)) Bool (ite ((_ is zz_new) p) true (ite ((_ is zz_fld) p) (zz_isnew (zz_fld_base p)) (ite ((_ is zz_elem) p) (zz_isnew (zz_elem_base p)) false))))
 (assert (= (zz_dyn zz_ifnil) 0))
+(declare-fun zz_cfresh (Ptr) Bool)
 (define-fun-rec zz_under ((a Ptr) (p Ptr)) Bool (or (= a p) (ite ((_ is zz_fld) a) (zz_under (zz_fld_base a) p) (ite ((_ is zz_elem) a) (zz_under (zz_elem_base a) p) false))))
 (define-fun zz_tdiv ((a Int) (b Int)) Int (ite (>= a 0) (div a b) (- (div (- a) b))))
 (define-fun zz_tmod ((a Int) (b Int)) Int (- a (* b (zz_tdiv a b))))
